@@ -715,3 +715,36 @@ M.loop(P_RR + ':OrReferenceRestrictions.is_satisfied_by', 0,
        invariant=lambda _i, self, type_w_str_rendering:
        forall_range(0, _i, lambda m: self._parts[m].selector is not type_w_str_rendering),
        modifies=dict(part='local'))
+
+
+# ------------------------------------------------------------------------------ execution time: `def` puts the symbol into the table
+# The execution-time table starts as a copy of the predefined symbols (_setup_post_sds_environment, contract in
+# C11_settings.py shared with C11) and is handed to every main step (`two_instructions`, C11_settings.py).
+
+from exactly_lib.impls.instructions.multi_phase.define_symbol import parser as def_parser
+from exactly_lib.test_case.phases.instruction_environment import InstructionEnvironmentForPostSdsStep
+
+P_DEF = 'exactly_lib.impls.instructions.multi_phase.define_symbol.parser'
+
+DEF_EMBRYO = Inst(def_parser.TheInstructionEmbryo, symbol=DEFINITION)
+
+M.contract(P_DEF + ':TheInstructionEmbryo.custom_main', params=dict(self=DEF_EMBRYO, symbols=TABLE),
+           modifies=('symbols',), old=lambda symbols: dict(view(symbols)),
+           ensures={'exactly (name -> container) is put into the table it is given': lambda self, symbols, old:
+           view(symbols) == _with(old, self.symbol.name, self.symbol.symbol_container)},
+           raises_only=())
+
+M.contract(P_DEF + ':TheInstructionEmbryo.main',
+           params=dict(self=DEF_EMBRYO,
+                       environment=Inst(InstructionEnvironmentForPostSdsStep, _hds=Any_, _symbols=TABLE,
+                                        _proc_exe_settings=Any_, _mem_buff_size=Int, _tmp_dir_space=Any_, _sds=Any_),
+                       settings=Any_, os_services=Any_),
+           modifies=('environment',), old=lambda environment: dict(view(environment.symbols)),
+           ensures={'the symbol is put into the table of the environment (the execution-time table)':
+                    lambda self, environment, old:
+                    view(environment.symbols) == _with(old, self.symbol.name, self.symbol.symbol_container)},
+           raises_only=())
+
+M.contract(P_DEF + ':TheInstructionEmbryo.symbol_usages', params=dict(self=DEF_EMBRYO), inline=True,
+           ensures={'reports exactly its definition': lambda self, result: len(result) == 1 and result[0] is self.symbol},
+           raises_only=())
